@@ -25,6 +25,7 @@ import (
 
 	"github.com/ory/fosite"
 	"github.com/ory/fosite/compose"
+	"github.com/ory/fosite/handler/oauth2"
 	"github.com/ory/fosite/handler/openid"
 	"github.com/ory/fosite/handler/rfc8628"
 	"github.com/ory/fosite/storage"
@@ -189,8 +190,9 @@ type Profile struct {
 	ATLifespan          int      `json:"at_lifespan,omitempty"` // seconds; 0 => 3600
 	RTLifespan          int      `json:"rt_lifespan,omitempty"` // seconds; 0 => 30 days; -1 unlimited
 	CodeLifespan        int      `json:"code_lifespan,omitempty"`
-	IDKey               string   `json:"id_key,omitempty"` // key file for ID tokens / JWT ATs (default ec256a)
-	IDAlg               string   `json:"id_alg,omitempty"` // when set the key is handed to fosite as a JWK with this algorithm
+	IDKey               string   `json:"id_key,omitempty"`  // key file for ID tokens / JWT ATs (default ec256a)
+	IDAlg               string   `json:"id_alg,omitempty"`  // when set the key is handed to fosite as a JWK with this algorithm
+	Session             string   `json:"session,omitempty"` // session implementation handed to the library: "" (harness Sess), openid, jwt, default
 	Debug               bool     `json:"debug,omitempty"`
 	LegacyErrors        bool     `json:"legacy_errors,omitempty"`
 	JWTBearerSkipAuth   bool     `json:"jwt_bearer_skip_auth,omitempty"`
@@ -399,7 +401,7 @@ func NewWorld(p Profile) *World {
 	w.AddClient("A", "secret-A", false)
 	w.AddClient("B", "secret-B", false)
 	w.AddClient("P", "", true)
-	w.AddClient("I", "secret-I", false) // inspector: only introspects
+	w.AddClient("I", "secret-I", false)       // inspector: only introspects
 	w.AddClient("a", "secret-a-lower", false) // id differs from "A" only in letter case
 	w.AddClient("p", "", true)
 	w.Mem.Users["peter"] = storage.MemoryUserRelation{Username: "peter", Password: "pw-peter"}
@@ -453,11 +455,25 @@ func (w *World) AcceptUserCode(userCode string, accept bool) bool {
 	}
 	if accept {
 		req.SetUserCodeState(fosite.UserCodeAccepted)
-		if s, ok := req.GetSession().(*Sess); ok {
+		if s, ok := req.GetSession().(interface{ SetSubject(string) }); ok {
 			s.SetSubject("device-user")
 		}
 	} else {
 		req.SetUserCodeState(fosite.UserCodeRejected)
 	}
 	return true
+}
+
+// NewSession returns the session object the integrator hands to the library, of the
+// implementation selected by the profile.
+func (w *World) NewSession(subject string) fosite.Session {
+	switch w.P.Session {
+	case "openid":
+		return &openid.DefaultSession{Claims: &jwt.IDTokenClaims{Subject: subject, Issuer: IssuerURL}, Headers: &jwt.Headers{}, Subject: subject}
+	case "jwt":
+		return &oauth2.JWTSession{JWTClaims: &jwt.JWTClaims{Subject: subject, Issuer: IssuerURL}, JWTHeader: &jwt.Headers{}, Subject: subject}
+	case "default":
+		return &fosite.DefaultSession{Subject: subject}
+	}
+	return NewSess(subject)
 }
